@@ -30,6 +30,7 @@ ASSUMPTIONS = [
     "only asimap.parse.BadCommand (and subclasses) is turned into a BAD reply by both callers; any other exception type escaping parse() is a dropped connection",
     "the internal name of INBOX is 'inbox'; search strings, header names, flags, charset, mechanism names are compared case-insensitively, sequence ranges modulo order of the two ends, AND-lists modulo flattening",
     "a mailbox name that differs from the denoted string only by os.path.normpath is recorded as an observation, not a violation",
+    "a sentence whose mailbox name is absolute or has a '..' component may be rejected (refusing names that leave the mail root is C09's demand); if accepted it is compared like any other",
     "APPEND literal text is observed by wrapping asimap.parse.message_from_string for the duration of one parse",
 ]
 
@@ -377,6 +378,11 @@ def compare(j: Judge, cmd, ast, captured):
 # --------------------------------------------------------------------- execute
 
 
+def escapes_root(name) -> bool:
+    """Lexically outside the mail root: absolute, or climbing with a '..' component."""
+    return isinstance(name, str) and (name.startswith("/") or ".." in name.split("/"))
+
+
 def run_parser(text, capture=False):
     """-> (outcome, cmd, exc, captured) ; outcome in ok / bad / exc"""
     cmd = P.IMAPClientCommand(text)
@@ -434,6 +440,10 @@ def judge(trace):
     if kind == "valid":
         cause = trace.get("cause")
         if outcome == "bad":
+            if any(escapes_root(ast[f]) for f in ("mailbox_name", "mailbox_src_name", "mailbox_dst_name") if f in ast):
+                # a server may refuse (NO or BAD) a name that leads outside the mail root - C09 even demands it
+                obs.append("obs:escaping-name-refused")
+                return out, "bad", obs
             if cause in CAUSES:
                 out.append((f"C08.{cause}", "rejected", f"valid sentence {text[:160]!r} rejected: {exc}"))
             else:
